@@ -126,10 +126,15 @@ impl<'p> Evaluator<'_, 'p> {
                 self.array_stack.push(Vec::new());
                 self.state_stack.push(State::ArrayToValue);
 
-                for item in array.iter().rev() {
+                for (i, item) in array.iter().enumerate().rev() {
+                    self.push_trace_item(TraceItem::ArrayItem {
+                        span: None,
+                        index: i,
+                    });
                     self.state_stack.push(State::StdPruneArrayItem);
                     self.state_stack.push(State::StdPruneValue);
                     self.state_stack.push(State::DoThunk(item.view()));
+                    self.delay_trace_item();
                 }
             }
             ValueData::Object(object) => {
@@ -145,10 +150,15 @@ impl<'p> Evaluator<'_, 'p> {
                         .find_object_field_thunk(&object, 0, field_name)
                         .unwrap();
 
+                    self.push_trace_item(TraceItem::ObjectField {
+                        span: None,
+                        name: field_name,
+                    });
                     self.state_stack
                         .push(State::StdPruneObjectField { name: field_name });
                     self.state_stack.push(State::StdPruneValue);
                     self.state_stack.push(State::DoThunk(field_thunk));
+                    self.delay_trace_item();
                 }
 
                 self.check_object_asserts(&object);
@@ -3967,6 +3977,10 @@ impl<'p> Evaluator<'_, 'p> {
                     .find_object_field_thunk(&patch, 0, field_name)
                     .unwrap();
 
+                self.push_trace_item(TraceItem::ObjectField {
+                    span: None,
+                    name: field_name,
+                });
                 self.state_stack
                     .push(State::StdMergePatchField { name: field_name });
                 self.state_stack.push(State::StdMergePatchValue);
@@ -3981,6 +3995,7 @@ impl<'p> Evaluator<'_, 'p> {
                 } else {
                     self.value_stack.push(ValueData::Null);
                 }
+                self.delay_trace_item();
             }
 
             self.check_object_asserts(&patch);
